@@ -95,9 +95,9 @@ Nextstep(v) == AddKw([kw |-> "NEXTSTEP", v |-> v]) /\ UNCHANGED st
 Rptrst(v) == AddKw([kw |-> "RPTRST", v |-> v]) /\ UNCHANGED st
 \* further keywords with a handler in the library (rendered from the table in checks/schedgen.py, two variants each):
 \* they need no more than an existing well / group
-MiscWellKw == {"COMPORD", "CSKIN", "WDFAC", "WINJCLN", "WLIFTOPT", "WPAVEDEP", "WRFT", "WRFTPLT", "WVFPDP", "WVFPEXP", "WWPAVE"}
-MiscGroupKw == {"GCONINJG", "GCONSALE", "GCONSUMP", "GECON", "GLIFTOPT", "GPMAINT"}
-MiscGlobalKw == {"DRSDT", "DRSDTR", "DRVDT", "FBHPDEF", "GUIDERAT", "MESSAGES", "MULTPV", "MULTZ", "NETBALAN", "NUPCOL", "RPTONLY", "RPTSCHED", "SAVE", "SUMTHIN", "VAPPARS", "WHISTCTL", "WPAVE", "WSEGITER"}
+MiscWellKw == {"COMPORD", "CSKIN", "WDFAC", "WDFACCOR", "WINJCLN", "WLIFTOPT", "WPAVEDEP", "WRFT", "WRFTPLT", "WVFPDP", "WVFPEXP", "WWPAVE"}
+MiscGroupKw == {"BRANPROP", "GCONINJG", "GCONPRDG", "GCONSALE", "GCONSUMP", "GECON", "GLIFTOPT", "GPMAINT"}
+MiscGlobalKw == {"DRSDT", "DRSDTR", "DRVDT", "FBHPDEF", "GUIDERAT", "MESSAGES", "MULTPV", "MULTZ", "NETBALAN", "NUPCOL", "RPTONLY", "RPTSCHED", "SAVE", "SOURCE", "SUMTHIN", "UDQDEF", "UDQDEFW", "VAPPARS", "VFPPROD", "WHISTCTL", "WPAVE", "WSEGITER"}
 MiscWell(n, w, v) == HasWell(w) /\ AddKw([kw |-> "MISC", name |-> n, well |-> w, v |-> v]) /\ UNCHANGED st
 MiscGroup(n, g, v) == g \in st.groups \ {"FIELD"} /\ AddKw([kw |-> "MISC", name |-> n, group |-> g, v |-> v]) /\ UNCHANGED st
 MiscGlobal(n, v) == AddKw([kw |-> "MISC", name |-> n, v |-> v]) /\ UNCHANGED st
